@@ -1,6 +1,6 @@
 (* Interp/Run.v — dispatcher: one case in, one observation out.
    case ::= (case ID FAMILY payload)   obs ::= (obs ID result) *)
-From Verif Require Import Base.Prelude Base.Str Interp.Sexp Interp.RunUnits Interp.RunSchema Interp.RunCodegen Interp.RunFunction.
+From Verif Require Import Base.Prelude Base.Str Interp.Sexp Interp.RunUnits Interp.RunSchema Interp.RunCodegen Interp.RunFunction Interp.RunC04 Interp.RunC12.
 Open Scope string_scope.
 
 Definition run_case (x : sexp) : sexp :=
@@ -11,6 +11,10 @@ Definition run_case (x : sexp) : sexp :=
         else if String.eqb fam "schema" then run_schema_case payload
         else if String.eqb fam "codegen" then run_codegen_case payload
         else if String.eqb fam "function" then run_function_case payload
+        else if String.eqb fam "c04" then run_c04_case payload
+        else if String.eqb fam "c04s" then run_c04s_case payload
+        else if String.eqb fam "c12" then run_c12_case payload
+        else if String.eqb fam "c12s" then run_c12s_case payload
         else bad "unknown family" in
       Ls [At "obs"; id; r]
   | _ => bad "not a case"
